@@ -2,8 +2,8 @@
 Line-protocol handler for the Describe filters (channel X):
   X filter <GoFilterName> <hex in>        → ok <hex out> | panic
   X default <field id>                    → the filter DefaultFilters() installs for the id, or `none`
-The Go side calls the exported filter function of /repo/field_filter.go with a String field
-(Binary encoding, LLL prefix) holding the same text, so that `newTrackData` sees exactly `in`.
+The Go side calls the exported filter function of /repo/field_filter.go on the same text (the
+`data field.Field` argument is no longer used by the filters; a String field holding the text is passed).
 -/
 import Iso8583.Model.Describe
 
@@ -15,7 +15,7 @@ def handle (toks : List String) : Option String :=
   | ["X", "filter", name, hex] =>
     match parseHexString hex with
     | some bs =>
-      match filterByName name (.value bs) bs with
+      match filterByName name bs with
       | some (.ok out) => some ("ok " ++ toHexString out)
       | some .panic => some "panic"
       | some .err => some "err"
